@@ -65,6 +65,7 @@ func (c *Config) Proxy(closing chan bool, cc io.ReadWriter, url *url.URL) error 
 	if err != nil {
 		return fmt.Errorf("connecting h2 to %v: %w", url, err)
 	}
+	defer sc.Close()
 	if err := forwardPreface(sc, cc); err != nil {
 		return fmt.Errorf("initializing h2 with %v: %w", url, err)
 	}
